@@ -6,11 +6,11 @@ from .. import ref as R
 
 NBATCH = {'quick': 16, 'thorough': 64}
 BUDGET_S = {'quick': 80, 'thorough': 180}
-PER_BATCH = {'quick': 50, 'thorough': 600}
+PER_BATCH = {'quick': 36, 'thorough': 600}
 LEXERS = [('lalr', 'basic'), ('lalr', 'contextual'), ('earley', 'basic'), ('earley', 'dynamic'), ('earley', 'dynamic_complete')]
 FLOORS = {
     'quick': dict({'distinct_nontrivial': 5000, 'feature:bytes': 800, 'feature:newline-in-ignored': 1500, 'feature:newline-in-kept': 800,
-                   'feature:newline-in-filtered': 500, 'feature:crlf': 300, 'feature:meta-nodes-checked': 3000,
+                   'feature:newline-in-filtered': 500, 'feature:crlf': 300, 'feature:meta-nodes-checked': 6000, 'feature:ebnf-meta-trees': 2500, 'meta-corpus': 7,
                    'feature:token-ends-with-newline': 500, 'monitor:LineCounter.feed-contract': 5000},
                   **{'judged:%s/%s' % pl: 800 for pl in LEXERS}),
     'thorough-unused': dict({'distinct_nontrivial': 80000, 'feature:bytes': 12000, 'feature:meta-nodes-checked': 50000},
@@ -278,9 +278,138 @@ CORPUS = [
 ]
 
 
+# ------------------------------------------------------------------ meta spans on generated EBNF grammars
+
+def cmp_spans(ref, got, buf, problems, counter):
+    """ref: reference-shaped tree with [start, end] per node (everything the node's rule matched, filtered tokens
+    included); got: canonical lark tree with meta"""
+    if ref is None or got is None or ref[0] != 'N' or got[0] != 'N':
+        return
+    if ref[1] != got[1] or len(ref[2]) != len(got[2]):
+        return                                  # shape is C03's business
+    sp, meta = ref[3], got[3]
+    if sp is None:
+        if meta is not None:
+            problems.append(('meta-on-node-without-tokens', {'node': got[1], 'meta': meta}))
+    elif meta is None:
+        problems.append(('meta-missing-on-nonempty-node', {'node': got[1], 'expected_span': sp}))
+    else:
+        counter[0] += 1
+        l1, c1 = R.line_col(buf, sp[0])
+        l2, c2 = R.line_col(buf, sp[1])
+        if meta[:2] != sp:
+            problems.append(('meta-span-differs-from-what-the-rule-matched', {'node': got[1], 'meta': meta, 'expected_span': sp}))
+        elif meta[2:4] != [l1, c1] or meta[4:6] != [l2, c2]:
+            problems.append(('meta-line/column', {'node': got[1], 'meta': meta, 'expected': [l1, c1, l2, c2]}))
+    for a, b in zip(ref[2], got[2]):
+        cmp_spans(a, b, buf, problems, counter)
+
+
+def run_ebnf_meta(ctx, G, inputs, only=None):
+    from ..gram import RefGrammar, print_grammar, duplicate_empty_alternatives
+    from .c01 import model as c01_model
+    if duplicate_empty_alternatives(G):
+        return
+    rg = RefGrammar(G)
+    if rg.is_cyclic():
+        return
+    text = print_grammar(G)
+    for parser, lexer in LEXERS[:4]:
+        if only and (parser, lexer) != tuple(only):
+            continue
+        st, l = build(ctx, text, parser=parser, lexer=lexer, propagate_positions=True)
+        if st != 'ok':
+            continue
+        mode = lexer if parser == 'earley' else 'basic'
+        for w in inputs:
+            member, inp = c01_model(rg, mode, w)
+            if not member:
+                continue
+            try:
+                ds = R.Chart(rg, inp).derivations(cap=3)
+            except (R.TooMany, RecursionError):
+                continue
+            if len(ds) != 1:
+                continue
+            ref = R.Shaper(rg, inp, False, True, spans=True).shape(ds[0])
+            out = call(ctx, 'parse', l.parse, w, pos=True, meta=True)
+            if out[0] != 'ok' or out[1] is None or out[1][0] != 'N' or ref is None or ref[0] != 'N':
+                continue
+            problems, cnt = [], [0]
+            cmp_spans(ref, out[1], w, problems, cnt)
+            fid = None
+            if problems and problems[0][0] == 'meta-span-differs-from-what-the-rule-matched':
+                # F-C06-1: does the token-collapse model explain every span of this tree?
+                ref2 = R.Shaper(rg, inp, False, True, spans='token-collapse').shape(ds[0])
+                p2 = []
+                cmp_spans(ref2, out[1], w, p2, [0])
+                if not p2:
+                    fid = 'F-C06-1'
+            ctx.count('feature:meta-nodes-checked', cnt[0])
+            ctx.count('feature:ebnf-meta-trees')
+            ctx.judged([text, parser, lexer, 'ebnf-meta', w], cnt[0] >= 2, ['kind:ebnf-meta'])
+            for mech, det in problems[:1]:
+                ctx.violation('%s:%s/%s' % (mech, parser, lexer), {'kind': 'ebnf-meta', 'ebnf': G, 'engine': [parser, lexer], 'text': w}, det, fid)
+
+
+def _meta_corpus():
+    from .. import gen
+    L, r, a = gen.LIT, gen.rule, gen.alt
+    T = [gen.term('A', ['s', 'a', '']), gen.term('B', ['s', 'b', '']), gen.term('_U', ['s', 'u', '']), gen.term('WS', ['x', '[ \\n]+', ''], ex=[' '])]
+    asg = r('asg', [a([['t', 'A'], L('='), ['t', 'B']])])
+    plus = lambda x: ['q', ['r', x], '+', 0, 0]
+    star = lambda x: ['q', ['r', x], '*', 0, 0]
+
+    def G(*rules):
+        return {'rules': list(rules), 'terms': T, 'ignore': ['WS'], 'start': ['start'], 'alphabet': list('abu=;(), ')}
+    texts = ['a=b;', 'a=b ;\n(a=b; a=b\n;)', '((a=b;)a=b\n;)', 'a=b;a=b\n ;', '(a=b;)', ';a=b', ';a=b\n;a=b', '(a=b)', '( a=b\n)(a=b)', 'a=b,;', 'a=b ,\n;a=b,;',
+             'a=bu', 'a=b u\na=b\nu', 'u a=b', 'a=b;u']
+    return [
+        # a ?-rule that is one sub-tree followed by / preceded by / wrapped in filtered tokens, first or last in its parent
+        (G(r('start', [a([plus('st')])]), r('st', [a([['r', 'asg'], L(';')]), a([L('('), plus('st'), L(')')], 'blk')], mods='?'), asg), texts),
+        (G(r('start', [a([plus('st')])]), r('st', [a([L(';'), ['r', 'asg']])], mods='?'), asg), texts),
+        (G(r('start', [a([star('st'), ['r', 'st']])]), r('st', [a([L('('), ['r', 'asg'], L(')')])], mods='?'), asg), texts),
+        (G(r('start', [a([plus('x')])]), r('x', [a([['r', 'y'], L(';')])], mods='?'), r('y', [a([['r', 'asg'], L(',')])], mods='?'), asg), texts),
+        (G(r('start', [a([plus('_i')])]), r('_i', [a([['r', 'asg'], L(';')])]), asg), texts),
+        (G(r('start', [a([plus('st')])]), r('st', [a([['r', 'asg'], ['t', '_U']]), a([['t', '_U'], ['r', 'asg']], 'pre')], mods='?'), asg), texts),
+        (G(r('start', [a([['r', 'st'], L(';'), ['m', [a([['r', 'st']])]]])]), r('st', [a([['r', 'asg'], ['q', ['t', '_U'], '?', 0, 0]])], mods='?'), asg), texts),
+    ]
+
+
+def ebnf_meta_batch(ctx, rng, n):
+    from .. import gen
+    from ..gram import RefGrammar
+    if ctx.batch == 0:
+        for G, texts in _meta_corpus():
+            run_ebnf_meta(ctx, G, texts)
+            ctx.count('meta-corpus')
+    for _ in range(n):
+        if not ctx.time_left():
+            return
+        G = gen.ebnf(rng, p_rec=0.1, p_ignore=0.6, allow_templates=True)
+        if G['ignore']:
+            # newline-capable ignore, so that lines matter
+            for t in G['terms']:
+                if t['name'] == 'WS':
+                    t['pat'] = ['x', '[ \\n]+', '']
+                    t['ex'] = [' ', '\n', ' \n']
+        rg = RefGrammar(G)
+        ex = gen.term_examples(rg, G)
+        ins = set()
+        for _ in range(12):
+            s_ = gen.sample_sentence(rg, rng, ex, depth=5)
+            if s_ is not None:
+                sep = rng.choice(['', ' ', '\n']) if G['ignore'] else ''
+                w = sep.join(x for _, x in s_)
+                if len(w) <= 14:
+                    ins.add(w)
+        run_ebnf_meta(ctx, G, sorted(ins))
+
+
 def run_batch(ctx):
     rng = ctx.rng
     install_contract(ctx)
+    ebnf_meta_batch(ctx, rng, PER_BATCH[ctx.tier] // 2)
     if ctx.batch == 0:
         for g, gflags, kind, texts in CORPUS:
             run_grammar(ctx, g, gflags, kind, None, rng, 0, texts=texts, bytes_modes=[False, True])
@@ -297,4 +426,7 @@ def run_batch(ctx):
 
 def replay(ctx, case):
     install_contract(ctx)
+    if case.get('kind') == 'ebnf-meta':
+        run_ebnf_meta(ctx, case['ebnf'], [case['text']], only=case['engine'])
+        return
     run_grammar(ctx, case['grammar'], case['gflags'], case['kind'], None, ctx.rng, 0, only=case['engine'], texts=[case['text']], bytes_modes=[case['bytes']])
